@@ -483,6 +483,13 @@ func inputKeyedComposableRunnable(key string, r *composableRunnable) *composable
 		if !ok {
 			return nil, fmt.Errorf("cannot find input key: %s", key)
 		}
+		// the map element is only known as `any`: check it against the node's input type here, as
+		// inputStreamFilter does on the stream path, instead of tripping the node's type assertion (panic).
+		if r.genericHelper != nil && r.inputConverter.invoke != nil {
+			if v, err = r.inputConverter.invoke(v); err != nil {
+				return nil, fmt.Errorf("input key[%s]: %w", key, err)
+			}
+		}
 		out, err := i(ctx, v, opts...)
 		if err != nil {
 			return nil, err
